@@ -332,3 +332,31 @@ def rules(ctx):
 
 def const_zero(e):
     return isinstance(e, ast.Constant) and e.value == 0 and not isinstance(e.value, bool)
+
+
+def thorough_rules(ctx):
+    """R05.1 / R05.2 re-evaluated with every concrete model class as the
+    receiver (copy constructors, __setitem__ chains and clear() differ per
+    class)."""
+    P, R = ctx.prog, ctx.res
+    ctx.rule('R05.1c', "R05.1/R05.2 in every receiver context (10 model classes)", floor=100)
+    da = P.cls('DictArithmetic')
+    for c in MODELS:
+        E = Effects(P, R, context=c)
+        E.build()
+        for name in PURE + INPLACE:
+            m = P.lookup_method(c, name)
+            if not hasattr(m, 'node'):
+                continue
+            s_ = E.summary(m)
+            sn = R.self_name(m)
+            if name in PURE:
+                bad = sorted(s_['mut'])
+                alias = sorted(o for o in s_['ret'] if root(o).startswith('param:') and not o.startswith('elem:'))
+                ctx.inst('R05.1c', m, '%s.%s' % (c, name), not bad and not alias,
+                         "operands unchanged, fresh result" if not bad and not alias else
+                         "with receiver %s, %s %s" % (c, m.qual, ('may mutate %s' % bad) if bad else ('can return %s' % alias)))
+            else:
+                others = sorted(p_ for p_ in s_['mut'] if p_ != sn)
+                ctx.inst('R05.1c', m, '%s.%s' % (c, name), not others,
+                         "only self is written" if not others else "with receiver %s, %s may mutate %s" % (c, m.qual, others))
